@@ -86,7 +86,7 @@ def run_case(case, ctx):
     P = rc.Problem(case)
     orig = P.aspire.log_likelihood
 
-    def with_site(samples):
+    def with_site(samples, map_fn=None):
         n0 = len(P.calls)
         try:
             return orig(samples)
@@ -116,7 +116,23 @@ def run_case(case, ctx):
         minipcn.reset(); emcee.reset()
         minipcn.step_budget = 500
         try:
-            P.aspire.sampler.sample(n, **kw)
+            if case["seed"] % 4 == 1:
+                # ... inside a pool context entered after the sampler object was built
+                class _Pool:
+                    def map(self, fn, it):
+                        return list(map(fn, it))
+
+                    def close(self):
+                        pass
+
+                    def join(self):
+                        pass
+
+                with P.aspire.enable_pool(_Pool()):
+                    P.aspire.sampler.sample(n, **kw)
+                labels.append("second-run-in-pool-context")
+            else:
+                P.aspire.sampler.sample(n, **kw)
             _check_calls(P, ctx, case, "second-run:")
             labels.append("sampler-run-again")
         except ValueError as e:
